@@ -615,6 +615,95 @@ fn run_two_servers(sim: &Sim, _idx: u64) {
     }
 }
 
+/// C14 over TLS: a channel to an https endpoint whose connections die (1..3 times) between calls.
+/// Every reconnection has to go through the TLS connector again; a call at a quiescent point after
+/// a death (at the latest the one after it) succeeds, without the application rebuilding the channel.
+fn run_tls_reconnect(sim: &Sim, _idx: u64) {
+    let netcfg = NetCfg { capture: false, trace_bytes: false, stall_pct: sim.pick(&[0u64, 10]), max_stall_us: 200, ..NetCfg::draw(sim) };
+    let lazy = sim.chance(1, 2);
+    let deaths = sim.range(1, 3) as usize;
+    let first_fails = lazy && sim.chance(1, 3);
+    sim.nontrivial();
+    sim.sample(|| format!("TLS channel ({}), {deaths} connection deaths between calls, first attempt refused={first_fails}", if lazy { "lazy" } else { "eager" }));
+    sim.ev(|| format!("config: lazy={lazy} deaths={deaths} first_fails={first_fails}"));
+    let rt = simnet::runtime(sim, sim.content_seed());
+    let _freeze = simnet::freeze_guard(sim);
+    let res: Result<Option<String>, tokio::time::error::Elapsed> = rt.block_on(async {
+        tokio::time::timeout(Duration::from_secs(3600), async {
+            let net = SimNet::new(sim, netcfg);
+            let script = if first_fails { vec![simnet::ConnectStep::Fail(std::io::ErrorKind::ConnectionRefused)] } else { vec![] };
+            let (connector, rx) = SimConnector::new(&net, script);
+            let seen = Seen::default();
+            let tls = ServerTlsConfig::new().identity(Identity::from_pem(SERVER_PEM, SERVER_KEY));
+            let mut builder = Server::builder().tls_config(tls).expect("harness: server tls config");
+            let router = builder.add_service(HealthServer::new(CountingHealth(seen.clone())));
+            let incoming = tokio_stream::wrappers::UnboundedReceiverStream::new(rx).map(Ok::<_, std::io::Error>);
+            tokio::spawn(async move {
+                let _ = router.serve_with_incoming(incoming).await;
+            });
+            let tls = ClientTlsConfig::new().ca_certificate(Certificate::from_pem(CA_A)).domain_name("sim.test");
+            let ep = Endpoint::from_static("https://sim.test:443").tls_config(tls).expect("harness: client tls config");
+            let ch = if lazy {
+                ep.connect_with_connector_lazy(connector.clone())
+            } else {
+                match ep.connect_with_connector(connector.clone()).await {
+                    Ok(c) => c,
+                    Err(e) => return Some(format!("eager connect to a reachable TLS endpoint failed: {e:?}")),
+                }
+            };
+            let mut client = HealthClient::new(ch);
+            let call = |client: &mut HealthClient<tonic::transport::Channel>| {
+                let mut c = client.clone();
+                async move { tokio::time::timeout(Duration::from_secs(120), c.check(tonic::Request::new(HealthCheckRequest { service: CANARY.to_string() }))).await }
+            };
+            if first_fails {
+                // the refused attempt is that call's failure; nothing of it may linger
+                match call(&mut client).await {
+                    Err(_) => return Some("the call that met the refused attempt did not complete".into()),
+                    Ok(Ok(_)) => return Some("a call succeeded although the only connection attempt was refused".into()),
+                    Ok(Err(_)) => {}
+                }
+                tokio::time::sleep(Duration::from_secs(1)).await;
+            }
+            for round in 0..=deaths {
+                let mut ok = false;
+                for attempt in 0..2 {
+                    match call(&mut client).await {
+                        Err(_) => return Some(format!("round {round}: a call did not complete within 120 virtual seconds")),
+                        Ok(Ok(_)) => {
+                            ok = true;
+                            break;
+                        }
+                        Ok(Err(e)) => {
+                            sim.ev(|| format!("round {round} attempt {attempt}: {:?} {}", e.code(), e.message()));
+                            tokio::time::sleep(Duration::from_secs(1)).await;
+                        }
+                    }
+                }
+                if !ok {
+                    return Some(format!("round {round}: after {round} connection deaths two successive calls at quiescent points failed although the endpoint is reachable"));
+                }
+                if round < deaths {
+                    tokio::time::sleep(Duration::from_millis(50)).await;
+                    for id in 0..net.n_conns() {
+                        net.kill(id, sim.pick(&[simnet::KillKind::Eof, simnet::KillKind::Reset]));
+                    }
+                    tokio::time::sleep(Duration::from_secs(1)).await;
+                }
+            }
+            None
+        })
+        .await
+    });
+    drop(_freeze);
+    drop(rt);
+    match res {
+        Err(_) => sim.violation("C14/run-hangs", "TLS reconnect: the scenario did not finish within the virtual horizon".into()),
+        Ok(Some(e)) => sim.violation("C14/call-fails-although-endpoint-reachable", format!("TLS channel: {e}")),
+        Ok(None) => sim.probe("tls-channel-reconnected"),
+    }
+}
+
 fn run_https_without_tls(sim: &Sim, _idx: u64) {
     let netcfg = NetCfg { capture: true, trace_bytes: false, ..NetCfg::ideal() };
     sim.nontrivial();
@@ -699,5 +788,13 @@ fn main() {
             "replays reproduce schedule and verdict exactly, not ciphertext bytes",
         ],
         required_probes: vec!["cell-expected-success", "cell-expected-failure", "cell-not-judged", "peer-cert-seen-by-handler", "https-without-tls-config"],
+    }, Property {
+        id: "C14",
+        title: "A channel always answers and recovers when the peer comes back (the TLS part; everything else is checked by tsim)",
+        scenarios: vec![Scenario { name: "N-tls-reconnect", engine: "N", run: run_tls_reconnect, quick: 2_000, thorough: 100_000, grid: 0, what: "a TLS channel (real rustls on both ends) whose connections die 1..3 times between calls, optionally after a refused first attempt: every reconnection goes through the TLS connector again, and calls at quiescent points succeed without rebuilding the channel" }],
+        rule: "one run = lazy/eager x number of connection deaths x kill kind x network schedule; every run non-trivial",
+        real_vs_stub: vec![("tonic Channel / Reconnect / Connector with TLS, Server with TLS, hyper, h2, rustls", "real"), ("network, connector", "simnet (simulated)")],
+        assumptions: vec!["calls are issued at quiescent points"],
+        required_probes: vec!["tls-channel-reconnected"],
     }]);
 }
